@@ -170,6 +170,7 @@ func skipFile(ctx *build.Context, p string, skipTest bool) bool {
 	if skipTest && strings.HasSuffix(p, "_test") {
 		return true
 	}
+	p = strings.TrimSuffix(p, "_test")
 	i := strings.Index(p, "_")
 	if i < 0 {
 		return false
@@ -203,32 +204,19 @@ var knownOs = map[string]bool{
 	"darwin":    true,
 	"dragonfly": true,
 	"freebsd":   true,
+	"hurd":      true,
 	"illumos":   true,
 	"ios":       true,
 	"js":        true,
 	"linux":     true,
+	"nacl":      true,
 	"netbsd":    true,
 	"openbsd":   true,
 	"plan9":     true,
 	"solaris":   true,
 	"wasip1":    true,
 	"windows":   true,
-}
-
-var knownArch = map[string]bool{
-	"386":      true,
-	"amd64":    true,
-	"arm":      true,
-	"arm64":    true,
-	"loong64":  true,
-	"mips":     true,
-	"mips64":   true,
-	"mips64le": true,
-	"mipsle":   true,
-	"ppc64":    true,
-	"ppc64le":  true,
-	"s390x":    true,
-	"wasm":     true,
+	"zos":       true,
 }
 
 // unixOs lists the operating systems matching the "unix" build tag.
@@ -245,4 +233,31 @@ var unixOs = map[string]bool{
 	"netbsd":    true,
 	"openbsd":   true,
 	"solaris":   true,
+}
+
+var knownArch = map[string]bool{
+	"386":         true,
+	"amd64":       true,
+	"amd64p32":    true,
+	"arm":         true,
+	"armbe":       true,
+	"arm64":       true,
+	"arm64be":     true,
+	"loong64":     true,
+	"mips":        true,
+	"mipsle":      true,
+	"mips64":      true,
+	"mips64le":    true,
+	"mips64p32":   true,
+	"mips64p32le": true,
+	"ppc":         true,
+	"ppc64":       true,
+	"ppc64le":     true,
+	"riscv":       true,
+	"riscv64":     true,
+	"s390":        true,
+	"s390x":       true,
+	"sparc":       true,
+	"sparc64":     true,
+	"wasm":        true,
 }
